@@ -23,7 +23,7 @@ N_ = "contracts.batch_native"
 NOT_DEMANDED = ["integral-batch-shape-N1"]
 KNOWN = {"C09-1": "integral-batch-shape:*:r=1"}
 def RP(cls=None):
-    kw = {"budget": 60, "skip_classes": NOT_DEMANDED}
+    kw = {"budget": 60, "skip_classes": NOT_DEMANDED + ([] if cls else list(KNOWN.values()))}       # a fallback search looks for something NEW: not in the region of a listed finding
     if cls:
         kw["only_class"] = cls
     return {"replay": {"module": N_, "func": "replay_integral", "kwargs": kw, "vars": {}}}
